@@ -459,10 +459,10 @@ func c15PublishCase(h *hctx, id int) (ok bool) {
 // ---------------------------------------------------------------------------------------------------------------
 
 func c15Snapshot(n *Notifier, key interface{}, ids map[uintptr]int) []int {
-	n.mutex.RLock()
-	defer n.mutex.RUnlock()
+	notifierMutexOf(n).RLock()
+	defer notifierMutexOf(n).RUnlock()
 	var l []int
-	for p := range n.subscribers[key] {
+	for p := range (*notifierSubsOf(n))[key] {
 		if id, ok := ids[p]; ok {
 			l = append(l, id)
 		} else {
@@ -475,10 +475,10 @@ func c15Snapshot(n *Notifier, key interface{}, ids map[uintptr]int) []int {
 
 // c15Registered: number of (key, target) subscriptions in the registry (whether or not empty keys are cleaned up).
 func c15Registered(n *Notifier) int {
-	n.mutex.RLock()
-	defer n.mutex.RUnlock()
+	notifierMutexOf(n).RLock()
+	defer notifierMutexOf(n).RUnlock()
 	c := 0
-	for _, m := range n.subscribers {
+	for _, m := range *notifierSubsOf(n) {
 		c += len(m)
 	}
 	return c
@@ -855,4 +855,10 @@ func c15StressRound(h *hctx, id int) bool {
 	}
 	h.count("stress_rounds", 1)
 	return true
+}
+
+// the registry lock (the only sync.RWMutex) and the registry map (the only map of that type) of a Notifier
+func notifierMutexOf(n *Notifier) *sync.RWMutex { return fld[sync.RWMutex](n, "mutex") }
+func notifierSubsOf(n *Notifier) *map[interface{}]map[uintptr]notifierSubscriber {
+	return fld[map[interface{}]map[uintptr]notifierSubscriber](n, "subscribers")
 }
